@@ -195,6 +195,18 @@ theorem C41_labels_tiles (pr : Bool) (start stop dur : Int) (hd : 0 < dur) (hlt 
   have hne : ¬ (pr = true ∧ start = stop) := by omega
   exact ⟨l, by simp [splitLabels, hne, hl], ht, ht.covers, ht.bounds⟩
 
+/-- **C41 (labels/series, lengths).**  For `start < end` the consecutive sub-ranges of
+    `C41_labels_tiles` have lengths that add up to exactly `end − start` (no time counted twice or left out),
+    and there are at least `⌈(end − start)/dur⌉` of them. -/
+theorem C41_labels_length (pr : Bool) (start stop dur : Int) (hd : 0 < dur) (hlt : start < stop) :
+    ∃ l, splitLabels pr start stop dur = .ok l ∧
+      (l.map (fun q => q.2 - q.1)).sum = stop - start ∧ stop - start ≤ dur * l.length := by
+  obtain ⟨l, hl, ht, _⟩ := C41_labels_tiles pr start stop dur hd hlt
+  exact ⟨l, hl, ht.sum_len⟩
+-- non-vacuity
+example : splitLabels true 3 40 10 = .ok [(3, 13), (13, 23), (23, 33), (33, 40)] ∧
+    ([(3, 13), (13, 23), (23, 33), (33, 40)].map (fun q : Int × Int => q.2 - q.1)).sum = 40 - 3 := by decide
+
 /-- **C41 (labels/series)** for the code as it is now (after the repair): every request with
     `start ≤ end`, point ranges included, is covered by its sub-ranges. -/
 theorem C41_labels : C41_labels_full true := by
